@@ -206,21 +206,22 @@ Section Flat.
     g_mut : list C;         (* _labels_mutable *)
     g_map : option amap;    (* _map (AutoMap), None = loc_is_iloc *)
     g_count : Z;            (* _positions_mutable_count *)
-    g_recache : bool        (* _recache *)
+    g_recache : bool;       (* _recache *)
+    g_npos : Z              (* len(_positions): the cached positions array (stale while g_recache) *)
   }.
 
   Definition M_go_init (l : list C) : res go :=
     match am_build l with
-    | Ok m => Ok (mk_go l l (Some m) (zlen l) false)
+    | Ok m => Ok (mk_go l l (Some m) (zlen l) false (zlen l))
     | Err _ => Err "ErrorInitIndex"
     end.
 
   Definition M_go_auto (n : nat) : go :=
-    let l := map of_Z (iota n) in mk_go l l None (zlen l) false.
+    let l := map of_Z (iota n) in mk_go l l None (zlen l) false (zlen l).
 
   (* _update_array_cache  index.py:1404-1417 *)
   Definition M_go_recache (g : go) : go :=
-    if g_recache g then mk_go (g_mut g) (g_mut g) (g_map g) (g_count g) false else g.
+    if g_recache g then mk_go (g_mut g) (g_mut g) (g_map g) (g_count g) false (g_count g) else g.
 
   (* len(self): recache, then len(self._labels) *)
   Definition M_go_len (g : go) : Z := zlen (g_labels (M_go_recache g)).
@@ -253,15 +254,15 @@ Section Flat.
       | Some m =>
           match am_add m (fst k) with
           | Err e => (g1, Err e)
-          | Ok m' => (mk_go (g_labels g1) (g_mut g1 ++ [fst k]) (Some m') (g_count g1 + 1) true, Ok tt)
+          | Ok m' => (mk_go (g_labels g1) (g_mut g1 ++ [fst k]) (Some m') (g_count g1 + 1) true (g_npos g1), Ok tt)
           end
       | None =>
           let keep_auto := match key_int k with Some z => z =? g_count g1 | None => false end in
           let mut' := g_mut g1 ++ [fst k] in
-          if keep_auto then (mk_go (g_labels g1) mut' None (g_count g1 + 1) true, Ok tt)
+          if keep_auto then (mk_go (g_labels g1) mut' None (g_count g1 + 1) true (g_npos g1), Ok tt)
           else match am_build mut' with
-               | Ok m => (mk_go (g_labels g1) mut' (Some m) (g_count g1 + 1) true, Ok tt)
-               | Err e => (mk_go (g_labels g1) mut' None (g_count g1) (g_recache g1), Err e)
+               | Ok m => (mk_go (g_labels g1) mut' (Some m) (g_count g1 + 1) true (g_npos g1), Ok tt)
+               | Err e => (mk_go (g_labels g1) mut' None (g_count g1) (g_recache g1) (g_npos g1), Err e)
                end
       end.
 
@@ -296,17 +297,18 @@ Section Flat.
     match g_map g with
     | Some m => match am_get m (fst k) with Some i => Ok i | None => Err "KeyError" end
     | None =>
-        let n := g_count g in          (* self._positions[key], positions = arange(count) *)
+        let n := g_npos g in           (* self._positions[key] WITHOUT a _recache check (index.py:986) *)
         match key_int k with
         | Some z => if (- n <=? z) && (z <? n) then Ok z else Err "KeyError"
         | None => Err "KeyError"
         end
     end.
 
+  (* the harness probes loc_to_iloc and `in` FIRST (on the state the history left), then the readers *)
   Definition M_go_observe (g : go) (probes : list key) : obs :=
-    let g := M_go_recache g in
-    let l := g_labels g in
-    mk_obs l l (rev l) (zlen l) (iota (Z.to_nat (g_count g))) l
+    let g' := M_go_recache g in
+    let l := g_labels g' in
+    mk_obs l l (rev l) (zlen l) (iota (Z.to_nat (g_npos g'))) l
            (map (M_go_lookup g) probes) (map (M_go_contains g) probes).
 
   (* ---- specification of a grow-only index: a list that accepts exactly the new labels *)
@@ -353,7 +355,11 @@ Section Flat.
   Fixpoint go_extend_dom (g : go) (ks : list key) : bool :=
     match ks with
     | [] => true
-    | k :: ks' => go_key_ok g k && go_extend_dom (fst (M_go_append g k)) ks'
+    | k :: ks' => go_key_ok g k &&
+                  match M_go_append g k with
+                  | (g', Ok _) => go_extend_dom g' ks'
+                  | (_, Err _) => true
+                  end
     end.
 
   Definition go_step_dom (g : go) (o : op) : bool :=
@@ -376,7 +382,7 @@ Arguments o_len {C}. Arguments o_pos {C}. Arguments o_at {C}. Arguments o_lookup
 Arguments o_contains {C}.
 Arguments mk_index {C}. Arguments ix_labels {C}. Arguments ix_map {C}.
 Arguments mk_go {C}. Arguments g_labels {C}. Arguments g_mut {C}. Arguments g_map {C}.
-Arguments g_count {C}. Arguments g_recache {C}.
+Arguments g_count {C}. Arguments g_recache {C}. Arguments g_npos {C}.
 Arguments OpAppend {C}. Arguments OpExtend {C}. Arguments OpTouch {C}.
 Arguments memb {C}. Arguments nodupb {C}. Arguments index_of {C}. Arguments S_lookup {C}.
 Arguments S_contains {C}. Arguments S_observe {C}. Arguments S_index {C}.
